@@ -1,251 +1,21 @@
-(* CorePhase2Acct.v -- accounting / termination clauses of the core-loop monitor:
-   codes 701 702 (iv_main returns only when quit or nothing is registered) and 706
-   (after tear-down the object count is 0, or 1 for the internal task of a self-post). *)
+(* CorePhase2Acct.v -- accounting / termination / progress clauses of the core-loop
+   monitor: exported statements (last file of the family CorePhase2Acct*.v).
+   Build order: CorePhase2AcctTr, CorePhase2AcctTr2, CorePhase2AcctMon, CorePhase2AcctMon2,
+   CorePhase2AcctFd, CorePhase2AcctAct, CorePhase2AcctLoop, CorePhase2AcctTear,
+   CorePhase2AcctEnd, CorePhase2AcctEv, CorePhase2AcctEvLoop, CorePhase2AcctWait, CorePhase2Acct. *)
 From Coq Require Import List ZArith Bool Lia.
 From Ivv Require Import Core.Kernel Core.CoreTypes Core.CoreFd Core.CoreModel Core.Monitors Core.GuardMon Core.CoreSpec
-  Core.CoreRel Core.CorePhase2AcctTr Core.CorePhase2AcctMon Core.CorePhase2AcctFd Core.CorePhase2AcctAct
-  Core.CorePhase2AcctLoop Core.CorePhase2AcctTear.
-From Ivv Require Timer.HeapModel Timer.HeapBase Timer.HeapFacts Timer.HeapProofs Timer.HeapSift.
+  Core.CoreRel.
+From Ivv Require Export Core.CorePhase2AcctTr Core.CorePhase2AcctTr2 Core.CorePhase2AcctMon Core.CorePhase2AcctMon2
+  Core.CorePhase2AcctFd Core.CorePhase2AcctAct Core.CorePhase2AcctLoop Core.CorePhase2AcctTear Core.CorePhase2AcctEnd
+  Core.CorePhase2AcctEv Core.CorePhase2AcctEvLoop Core.CorePhase2AcctWait.
 Import ListNotations.
 Local Open Scope Z_scope.
 
-(* ---------- nothing registered ---------- *)
-Lemma any_obj_false : forall f, (forall i, inr16 i -> f i = false) -> any_obj f = false.
-Proof.
-  intros f H. unfold any_obj, objs. destruct (existsb f (zseq 0 16)) eqn:E; [|reflexivity].
-  apply existsb_exists in E. destruct E as (x & I & F). apply In_zseq in I. rewrite H in F; [discriminate|unfold inr16; lia].
-Qed.
-
-Lemma cnt_zero : forall f i, cnt f = 0 -> inr16 i -> f i = false.
-Proof. intros f i Z I. destruct (f i) eqn:E; [|reflexivity]. pose proof (cnt_pos f i I E). lia. Qed.
-
-Lemma filter_none : forall (f : Z -> bool) l, (forall x, In x l -> f x = false) -> filter f l = [].
-Proof.
-  intros f l. induction l as [|a l IH]; intros H; [reflexivity|]. cbn [filter].
-  rewrite (H a (or_introl eq_refl)). apply IH. intros x I. apply H. right. exact I.
-Qed.
-
-Lemma cnt33_all_false : forall f, (forall k, 0 <= k <= 32 -> f k = false) -> cnt33 f = 0.
-Proof.
-  intros f H. unfold cnt33. rewrite filter_none; [reflexivity|].
-  intros x I. apply In_zseq in I. apply H. lia.
-Qed.
-
-(* all timers are unregistered: the heap is empty *)
-Lemma hnum_zero : forall s, SI s -> (forall j, inr16 j -> timer_registered s j = false) -> hnum s = 0.
-Proof.
-  intros s [HI HR _ _ _ _ _] H. unfold hnum.
-  pose proof (HeapFacts.i_num _ HI) as N.
-  destruct (Z.eq_dec (HeapModel.num (heap s)) 0) as [E|NE]; [exact E|].
-  destruct (HeapFacts.i_filled _ HI 1 ltac:(lia)) as (t & _ & TI).
-  assert (TR : Zpos t <= 16) by (apply HR; lia).
-  specialize (H (Zpos t - 1) ltac:(unfold inr16; lia)). unfold timer_registered in H.
-  replace (tmid (Zpos t - 1)) with t in H by (unfold tmid; replace (Zpos t - 1 + 1) with (Zpos t) by lia; reflexivity).
-  rewrite TI in H. discriminate H.
-Qed.
-
-(* the heap is empty and no batch is being dispatched: no timer is registered *)
-Lemma no_timer : forall s j, SI s -> hnum s = 0 -> HeapModel.batch (heap s) = [] -> timer_registered s j = false.
-Proof.
-  intros s j [HI _ _ _ _ _ _] Z B. unfold timer_registered, hnum in *.
-  destruct (HeapFacts.i_batch _ HI) as (B1 & _ & B3).
-  specialize (B1 (tmid j)). specialize (B3 (tmid j)). rewrite B in B1.
-  destruct (Z.eq_dec (HeapModel.tidx (heap s) (tmid j)) (-1)) as [E|NE]; [rewrite E; reflexivity|].
-  destruct (Z.eq_dec (HeapModel.tidx (heap s) (tmid j)) 0) as [E0|NE0]; [apply B1 in E0; destruct E0|].
-  destruct (HeapFacts.i_back _ HI (tmid j) ltac:(lia)) as [R _]. lia.
-Qed.
-
-Lemma ntask_nonneg : forall s, 0 <= ntask s. Proof. intros. unfold ntask. lia. Qed.
-
-Lemma acc_zero : forall b s, J b s -> Acc s -> numobjs s = 0 ->
-  numfds s = 0 /\ hnum s = 0 /\ ntask s = 0 /\ ev_count s = 0.
-Proof.
-  intros b s Jh A Z. pose proof (ac_no _ A) as N. pose proof (ac_nf _ A) as F.
-  pose proof (cnt33_nonneg (regf s)). pose proof (ntask_nonneg s). pose proof (kick_range s).
-  pose proof (cnt_nonneg' s (j_fx _ _ Jh)). pose proof (HeapFacts.i_num _ (si_heap _ (j_si _ _ Jh))).
-  unfold hnum in *. lia.
-Qed.
-
-Lemma nothing_registered : forall b s, J b s -> Acc s -> numobjs s = 0 -> HeapModel.batch (heap s) = [] ->
-  something_registered (mst s) = false.
-Proof.
-  intros b s Jh A Z B. destruct (acc_zero b s Jh A Z) as (Z1 & Z2 & Z3 & Z4).
-  pose proof (j_ag _ _ Jh) as AG. pose proof (j_fx _ _ Jh) as X.
-  assert (RF : forall k, 0 <= k <= 32 -> registered (fdt s k) = false).
-  { intros k K. apply (cnt33_zero (regf s)); [rewrite <- (ac_nf _ A); exact Z1|exact K]. }
-  unfold something_registered.
-  rewrite (any_obj_false (a_fd (mst s))), (any_obj_false (a_tm (mst s))), (any_obj_false (a_tk (mst s))),
-          (any_obj_false (a_ev (mst s))), (any_obj_false (a_rw (mst s))); [reflexivity| | | | |].
-  - intros i I. rewrite (ag_rw _ _ AG i I). destruct (rw_reg s i) eqn:E; [|reflexivity].
-    pose proof (ac_raw _ A i ltac:(unfold inr16 in I; lia) E) as H. rewrite RF in H; [discriminate H|unfold inr16 in I; lia].
-  - intros i I. rewrite (ag_ev _ _ AG i I). apply cnt_zero; [rewrite <- (fx_cnt _ X); exact Z4|exact I].
-  - intros i I. rewrite (ag_tk _ _ AG i I). destruct (task_registered s i) eqn:E; [|reflexivity].
-    apply task_registered_In in E. unfold ntask in Z3. destruct (tasks s ++ curl s); [destruct E|cbn [length] in Z3; lia].
-  - intros i I. rewrite (ag_tm _ _ AG i I). apply no_timer; [apply (j_si _ _ Jh)|exact Z2|exact B].
-  - intros i I. rewrite (ag_fd _ _ AG i I). apply RF. unfold inr16 in I. lia.
-Qed.
-
-(* ---------- after tear-down ---------- *)
-Lemma cnt_all_false : forall f, (forall i, inr16 i -> f i = false) -> cnt f = 0.
-Proof.
-  intros f H. unfold cnt. rewrite filter_none; [reflexivity|].
-  intros x I. apply In_zseq in I. apply H. unfold inr16. lia.
-Qed.
-
-Lemma torn_down : forall b s, J b s -> Acc s -> (forall i, inr16 i -> Off s i) ->
-  numobjs s = 0 \/ (numobjs s = 1 /\ posted_ever (mst s) = true).
-Proof.
-  intros b s Jh A O. pose proof (j_fx _ _ Jh) as X. pose proof (j_si _ _ Jh) as SIh.
-  assert (EC : ev_count s = 0).
-  { rewrite (fx_cnt _ X). apply cnt_all_false. intros i I. apply (O i I). }
-  assert (NF : numfds s = 0).
-  { rewrite (ac_nf _ A). apply cnt33_all_false. intros k K. unfold regf.
-    destruct (registered (fdt s k)) eqn:E; [|reflexivity]. exfalso.
-    destruct (Z_lt_le_dec k 16) as [L|G].
-    - destruct (O k ltac:(unfold inr16; lia)) as (O1 & _). congruence.
-    - pose proof (fx_raw _ X (k - 16) ltac:(lia)) as H. replace (16 + (k - 16)) with k in H by lia. specialize (H E).
-      destruct (Z.eq_dec k 32) as [->|N].
-      + destruct (fx_kick _ X H) as [_ H2]. contradiction.
-      + destruct (O (k - 16) ltac:(unfold inr16; lia)) as (_ & _ & _ & _ & O5). congruence. }
-  assert (HN : hnum s = 0) by (apply hnum_zero; [exact SIh|intros j I; apply (O j I)]).
-  assert (KK : kick s = 0) by (unfold kick; rewrite EC; reflexivity).
-  pose proof (ac_no _ A) as N. rewrite NF, HN, EC, KK in N.
-  assert (TL : forall k, In k (tasks s ++ curl s) -> k = 16).
-  { intros k H. pose proof (si_tk _ SIh k H) as R.
-    destruct (Z.eq_dec k 16) as [E|NE]; [exact E|exfalso].
-    destruct (O k ltac:(unfold inr16; lia)) as (_ & _ & O3 & _).
-    apply task_registered_In in H. congruence. }
-  pose proof (si_tknd _ SIh) as ND. unfold ntask in N.
-  destruct (tasks s ++ curl s) as [|a [|a' l]] eqn:E.
-  - left. cbn [length] in N. lia.
-  - right. cbn [length] in N. split; [lia|]. apply (ac_pe _ A). apply task_registered_In. rewrite E.
-    left. apply TL. left. reflexivity.
-  - exfalso. pose proof (TL a (or_introl eq_refl)). pose proof (TL a' (or_intror (or_introl eq_refl))). subst.
-    inversion ND as [|? ? NI _]. apply NI. left. reflexivity.
-Qed.
-
-(* ---------- the events that decide the three codes ---------- *)
-Definition S3 : list Z := [701; 702; 706].
-
-Lemma lp_quiet : forall e, lp e -> quiet_for S3 e.
-Proof.
-  intros e L c Hc Hs. destruct e; cbn [lp] in L; try contradiction; try destruct n;
-    cbn [ev_codes In S3] in *; intuition (subst; discriminate).
-Qed.
-
-Lemma ca_quiet : forall e, ca e -> quiet_for S3 e.
-Proof. intros e C. apply lp_quiet. apply ca_lp. exact C. Qed.
-
-Lemma chk_true : forall m b c, b = true -> chk m b c = m.
-Proof. intros m b c ->. reflexivity. Qed.
-
-Lemma something_close : forall m, something_registered (close_iteration m) = something_registered m.
-Proof.
-  intros m. destruct (mview_fields _ _ (mview_close m)) as (Q1 & _ & _ & Q4 & _ & Q6 & Q7 & _ & Q9 & _).
-  unfold something_registered. rewrite Q1, Q4, Q6, Q7, Q9. reflexivity.
-Qed.
-
-Lemma clean_TEnd : forall m q n, Clean S3 m ->
-  (q =? 1) || negb (something_registered m) = true -> (q =? 1) || (n =? 0) = true ->
-  Clean S3 (mon_step m (TEnd q n)).
-Proof.
-  intros m q n C H1 H2. unfold mon_step. cbv zeta.
-  rewrite (chk_true (close_iteration m) _ 701) by (rewrite something_close; exact H1).
-  rewrite (chk_true (close_iteration m) _ 702) by exact H2.
-  intros c Hc. cbn [fails m_loop] in Hc.
-  assert (SB : Sub (chk (close_iteration m) (eqb (q =? 1) (a_quit (close_iteration m))) 703) m [204; 707; 711; 703]).
-  { apply Sub_chk_t; [cbn; tauto|]. apply Sub_close; cbn; tauto. }
-  destruct (SB c Hc) as [H|H]; [apply C; exact H|].
-  intros Hs. cbn [In S3] in *. intuition (subst; discriminate).
-Qed.
-
-Lemma clean_TTear : forall m n, Clean S3 m -> (n =? 0) || ((n =? 1) && posted_ever m) = true ->
-  Clean S3 (mon_step m (TTear n)).
-Proof. intros m n C H. unfold mon_step. rewrite chk_true by exact H. exact C. Qed.
-
-(* ---------- whole runs ---------- *)
-Section Main.
-Variable sc : scenario.
-Hypothesis WF : wf_scenario sc.
-
-Lemma core0_Acc : Acc (core0 sc) /\ HeapModel.batch (heap (core0 sc)) = [] /\ Clean S3 (mst (core0 sc)).
-Proof.
-  unfold core0.
-  destruct (if (sc_backend sc =? M_ET) || (sc_backend sc =? M_EP) then _ else _) as [efd k].
-  split; [|split; [reflexivity|intros c []]].
-  constructor; cbn [numfds numobjs fdt heap ev_count use_raw rw_reg].
-  - symmetry. apply cnt33_all_false. intros i _. reflexivity.
-  - reflexivity.
-  - intros j _ H. discriminate H.
-  - intros H. discriminate H.
-  - intros H. discriminate H.
-Qed.
-
-Theorem core_clean_acct : Clean S3 (mon_run (run_scenario sc)).
-Proof.
-  unfold run_scenario.
-  match goal with |- Clean S3 (mon_run (rev (trace (res_state ?r)))) => change (Clean S3 (mst (res_state r))) end.
-  destruct core0_Acc as (A0 & B0 & C0).
-  pose proof (run_acts_PJA false (sc_setup sc) (core0 sc) (core0_J sc) A0 (wf_setup sc WF)) as P0.
-  pose proof (run_acts_ext (sc_setup sc) (core0 sc)) as T0.
-  destruct (run_acts (core0 sc) (sc_setup sc)) as [s1|s1]; cbn [bind PJA res_state] in *;
-    [|apply (Clean_ext S3 ca _ _ ca_quiet T0 C0)].
-  destruct P0 as (J1 & A1 & F1 & B1).
-  pose proof (Clean_ext S3 ca _ _ ca_quiet T0 C0) as C1.
-  (* iv_main is entered *)
-  set (s2 := set_quit (emit s1 TMain) false).
-  pose proof (J_main_enter s1 J1) as J2. fold s2 in J2.
-  assert (M2 : mst s2 = mon_step (mst s1) TMain) by (change (mst s2) with (mst (emit s1 TMain)); apply mst_emit).
-  assert (C2 : Clean S3 (mst s2)).
-  { rewrite M2. apply Clean_step; [|exact C1]. intros c []. }
-  assert (A2 : Acc s2).
-  { apply (Acc_plain (fun _ => True) s1 s2 A1); try reflexivity.
-    exists [TMain]. split; [reflexivity|constructor; [exact Logic.I|constructor]]. }
-  assert (ML2 : ML s2).
-  { constructor; [exact J2|exact A2| |].
-    - change (cur s1 = None). apply (proj2 F1). apply core0_cur.
-    - change (HeapModel.batch (heap s1) = []). apply B1. exact B0. }
-  pose proof (main_loop_ML sc WF (Z.to_nat (sc_limit sc) + 2) s2 true ML2) as P3.
-  pose proof (main_loop_ext sc (Z.to_nat (sc_limit sc) + 2) s2 true) as T3.
-  destruct (main_loop sc (Z.to_nat (sc_limit sc) + 2) s2 true) as [s3|s3]; cbn [bind res_state] in *;
-    [|apply (Clean_ext S3 lp _ _ lp_quiet T3 C2)].
-  destruct P3 as [[J3 A3 CU3 B3] EX3].
-  pose proof (Clean_ext S3 lp _ _ lp_quiet T3 C2) as C3.
-  (* iv_main returns *)
-  set (s4 := emit s3 (TEnd (if quit s3 then 1 else 0) (numobjs s3))).
-  pose proof (J_main_leave s3 J3) as J4. fold s4 in J4.
-  assert (C4 : Clean S3 (mst s4)).
-  { unfold s4. rewrite mst_emit. apply clean_TEnd; [exact C3| |].
-    - destruct (quit s3) eqn:Q; [reflexivity|]. cbn [orb] in EX3. apply Z.eqb_eq in EX3.
-      rewrite (nothing_registered true s3 J3 A3 EX3 B3). reflexivity.
-    - destruct (quit s3); [reflexivity|]. cbn [orb] in EX3. cbn. exact EX3. }
-  assert (A4 : Acc s4).
-  { apply (Acc_plain (fun _ => True) s3 s4 A3); try reflexivity. apply TrExt_emit. exact Logic.I. }
-  (* tear-down *)
-  pose proof (teardown_all_off false s4 J4 A4) as P5.
-  pose proof (teardown_ext (zseq 0 16) s4) as T5.
-  destruct (teardown s4 (zseq 0 16)) as [s5|s5]; cbn [bind res_state] in *;
-    [|apply (Clean_ext S3 ca _ _ ca_quiet T5 C4)].
-  destruct P5 as (J5 & A5 & _ & O5).
-  pose proof (Clean_ext S3 ca _ _ ca_quiet T5 C4) as C5.
-  rewrite mst_emit. apply Clean_step; [intros c Hc Hs; cbn [ev_codes In S3] in *; intuition (subst; discriminate)|].
-  apply (Clean_ext S3 ca (emit s5 (TTear (numobjs s5)))); [exact ca_quiet|apply deinit_ext|].
-  rewrite mst_emit. apply clean_TTear; [exact C5|].
-  destruct (torn_down false s5 J5 A5 O5) as [Z|[Z PE]]; rewrite Z; [reflexivity|]. rewrite PE. reflexivity.
-Qed.
-
-End Main.
-
-(* ---------- exported statements ---------- *)
-Theorem core_code_701 : forall sc, wf_scenario sc -> ~ In 701 (mon_fails (run_scenario sc)).
-Proof. intros sc WF H. apply (core_clean_acct sc WF 701 H). cbn. tauto. Qed.
-
-Theorem core_code_702 : forall sc, wf_scenario sc -> ~ In 702 (mon_fails (run_scenario sc)).
-Proof. intros sc WF H. apply (core_clean_acct sc WF 702 H). cbn. tauto. Qed.
-
-Theorem core_code_706 : forall sc, wf_scenario sc -> ~ In 706 (mon_fails (run_scenario sc)).
-Proof. intros sc WF H. apply (core_clean_acct sc WF 706 H). cbn. tauto. Qed.
-
+(* codes proved so far, one lemma per code (see CorePhase2AcctEnd.v) *)
+Check core_code_701.
+Check core_code_702.
+Check core_code_706.
 Print Assumptions core_code_701.
 Print Assumptions core_code_702.
 Print Assumptions core_code_706.
